@@ -46,6 +46,9 @@ def session(rng, njoin, nops):
     for n in names:
         ops += [f"{n} check_connection 2 F", f"{n} check_connection 2 T"]
     ops += [f"m check_connection 1 {rng.choice('TF')}"]      # the master is connected by definition
+    # the same calls with their optional parameters omitted (judge_defaults: must equal the documented defaults)
+    ops += [f"{rng.choice(names)} dflt check_connection", f"{rng.choice(names)} dflt lookup_node_id",
+            f"{rng.choice(names)} dflt lookup_address"]
     for _ in range(nops):
         x = rng.random()
         n, o = rng.choice(names), rng.choice(names)
@@ -362,6 +365,8 @@ class C17(PropCheck):
                     break
             if what:
                 out.append(Finding(l, what, {}))
+        seen = {f.case for f in out}
+        out += [f for f in judge_defaults(triples, self.impl) if f.case not in seen]
         return out
 
 
